@@ -86,7 +86,8 @@ func rank(s Status) int {
 // Check records an obligation that holds iff ok.
 func (c *Ctx) Check(ok bool, rule, construct string, pos token.Pos, detail string) bool {
 	if ok {
-		c.add(Holds, rule, construct, pos, detail)
+		// for a discharged obligation the text says what would have been wrong, so that the evidence reads correctly
+		c.add(Holds, rule, construct, pos, "holds; a violation would mean: "+detail)
 	} else {
 		c.add(Violated, rule, construct, pos, detail)
 	}
